@@ -24,6 +24,7 @@ type vUCall struct {
 }
 
 var vULog []vUCall
+var vUSeq int
 
 // vUNoFail: rules only log their invocation (used where the observable is the set of (path, rule) events)
 var vUNoFail bool
@@ -41,7 +42,8 @@ func vNum(i int) string {
 // per invocation: the walkers are checked against every behaviour of every rule.
 func vURule(tag string) CommonValidFn {
 	return func(errBuf *strings.Builder, validName, objName, fieldName string, tv reflect.Value) {
-		id := len(vULog)
+		id := vUSeq // never reset: nondeterministic choices need unique names across calls
+		vUSeq++
 		c := vUCall{tag: tag, validName: validName, obj: objName, field: fieldName}
 		if !vUNoFail && vndBool("fail"+vNum(id)) {
 			c.failed = true
